@@ -40,9 +40,9 @@ VARIANTS = [
     V("c01-le-to-lt", "C01", C3, 'if self.isc <= D("0.0"):', 'if self.isc < D("0.0"):', rule="C01.formula"),
     V("c01-commute-N", "C01", C3, "round_up(min((self.isc + self.esc), D(\"10\")))", "round_up(min(D(\"10\"), (self.esc + self.isc)))", "silent"),
     V("c01-pr-modified-scope", "C01", C3, '(abbreviation == "PR" and self.scope == "C")', '(abbreviation == "PR" and self.modified_scope == "C")', rule="C01"),
-    V("c01-fill-remove-MI", "C01", C3, '["MAV", "MAC", "MPR", "MUI", "MC", "MS", "MI", "MA"]', '["MAV", "MAC", "MPR", "MUI", "MC", "MS", "MA"]', rule="C01.fill"),
+    V("c01-fill-remove-MI", "C01", C3, '["MAV", "MAC", "MPR", "MUI", "MC", "MS", "MI", "MA"]', '["MAV", "MAC", "MPR", "MUI", "MC", "MS", "MA"]', rule="C01"),
     V("c01-fill-wrong-base", "C01", C3, "self.metrics[abbreviation] = self.metrics[abbreviation[1:]]", 'self.metrics[abbreviation] = self.metrics["A" if abbreviation == "MI" else abbreviation[1:]]', rule="C01"),
-    V("c01-alias-original", "C01", C3, "self.original_metrics = copy.copy(self.metrics)", "self.original_metrics = self.metrics", rule="C01.fill.copy"),
+    V("c01-alias-original", "C07", C3, "self.original_metrics = copy.copy(self.metrics)", "self.original_metrics = self.metrics", rule="C07"),
     V("c01-temporal-drop-rc", "C01", C3, 'self.base_score * self.get_value("E") * self.get_value("RL") * self.get_value("RC")', 'self.base_score * self.get_value("E") * self.get_value("RL")', rule="C01.formula"),
     V("c01-scores-order", "C01", C3, "return float(self.base_score), float(self.temporal_score), float(self.environmental_score)", "return float(self.base_score), float(self.environmental_score), float(self.temporal_score)", rule="C01.out"),
     V("c01-ms-x-not-inherit", "C01", C3, 'if self.modified_scope in [None, "X"]:', "if self.modified_scope in [None]:", rule="C01"),
@@ -65,9 +65,9 @@ VARIANTS = [
     V("c02-level-av", "C02", C4, 'AV_levels = {"N": 0.0, "A": 0.1, "L": 0.2, "P": 0.3}', 'AV_levels = {"N": 0.0, "A": 0.1, "L": 0.3, "P": 0.3}', rule="C02"),
     V("c02-eq3-and-or", "C02", C4, 'if self.m("VC") == "H" and self.m("VI") == "H":\n            eq3 = "0"', 'if self.m("VC") == "H" or self.m("VI") == "H":\n            eq3 = "0"', rule="C02.eq"),
     V("c02-eq1-drop-not-p", "C02", C4, '            and not self.m("AV") == "P"\n', "", rule="C02.eq"),
-    V("c02-e-default", "C02", C4, 'if metric == "E" and selected == "X":\n            return "A"', 'if metric == "E" and selected == "X":\n            return "P"', rule="C02.m"),
-    V("c02-cr-default", "C02", C4, 'if metric == "CR" and selected == "X":\n            return "H"', 'if metric == "CR" and selected == "X":\n            return "M"', rule="C02.m"),
-    V("c02-modified-not-override", "C02", C4, 'if modified_selected != "X":\n                return modified_selected', 'if modified_selected != "X" and metric != "AC":\n                return modified_selected', rule="C02.m"),
+    V("c02-e-default", "C02", C4, 'if metric == "E" and selected == "X":\n            return "A"', 'if metric == "E" and selected == "X":\n            return "P"', rule="C02"),
+    V("c02-cr-default", "C02", C4, 'if metric == "CR" and selected == "X":\n            return "H"', 'if metric == "CR" and selected == "X":\n            return "M"', rule="C02"),
+    V("c02-modified-not-override", "C02", C4, 'if modified_selected != "X":\n                return modified_selected', 'if modified_selected != "X" and metric != "AC":\n                return modified_selected', rule="C02"),
     V("c02-joint-01", "C02", C4, "elif eq3_val == 0 and eq6_val == 1:\n            eq3eq6_next_lower_macro = \"\".join(\n                str(val) for val in [eq1_val, eq2_val, eq3_val + 1, eq4_val, eq5_val, eq6_val]", "elif eq3_val == 0 and eq6_val == 1:\n            eq3eq6_next_lower_macro = \"\".join(\n                str(val) for val in [eq1_val, eq2_val, eq3_val, eq4_val, eq5_val, eq6_val + 1]", rule="C02.tail"),
     V("c02-copy-paste-level", "C02", C4, 'VI_levels[self.m("VI")] - VI_levels', 'VI_levels[self.m("VC")] - VI_levels', rule="C02"),
     V("c02-drop-distance", "C02", C4, "            + severity_distance_IR\n            + severity_distance_AR\n        )", "            + severity_distance_IR\n        )", rule="C02.tail"),
@@ -231,4 +231,24 @@ VARIANTS += [
     V("c20-kwonly", "C20", C3, "def clean_vector(self, output_prefix=True):", "def clean_vector(self, *, output_prefix=True):", rule="C20.syntax"),
     V("c20-iterate-plain-values", "C20", C3, "        for metric in METRICS_ABBREVIATIONS:\n            if metric in self.original_metrics:", "        for metric in METRICS_VALUES:\n            if metric in self.original_metrics:", rule="C20.order"),
     V("c20-annotations", "C20", C2, "def round_to_1_decimal(value):", "def round_to_1_decimal(value: D) -> D:", rule="C20.syntax"),
+]
+
+ALL = ["C%02d" % i for i in range(1, 21)]
+
+# behaviour-neutral refactorings: every check must stay silent (exit 0)
+VARIANTS += [
+    V("n-check-mandatory-comprehension", ALL, C3, "        missing = []\n        for mandatory_metric in METRICS_MANDATORY:\n            if mandatory_metric not in self.metrics:\n                missing.append(mandatory_metric)\n        if missing:\n            raise CVSS3MandatoryError", "        missing = [m for m in METRICS_MANDATORY if m not in self.metrics]\n        if missing:\n            raise CVSS3MandatoryError", "silent"),
+    V("n-v2-parse-early-exit", ALL, C2, '            if metric in METRICS_ABBREVIATIONS:\n                if value in METRICS_VALUES[metric]:\n                    if metric in self.metrics:\n                        raise CVSS2MalformedError(\'Duplicate metric "{0}"\'.format(metric))\n                    self.metrics[metric] = value\n                else:\n                    raise CVSS2MalformedError(\n                        \'Unknown value "{0}" in field "{1}"\'.format(value, field)\n                    )\n            else:\n                raise CVSS2MalformedError(\n                    \'Unknown metric "{0}" in field "{1}"\'.format(metric, field)\n                )', '            if metric not in METRICS_ABBREVIATIONS:\n                raise CVSS2MalformedError(\n                    \'Unknown metric "{0}" in field "{1}"\'.format(metric, field)\n                )\n            if value not in METRICS_VALUES[metric]:\n                raise CVSS2MalformedError(\n                    \'Unknown value "{0}" in field "{1}"\'.format(value, field)\n                )\n            if metric in self.metrics:\n                raise CVSS2MalformedError(\'Duplicate metric "{0}"\'.format(metric))\n            self.metrics[metric] = value', "silent"),
+    V("n-v3-clean-vector-listcomp", ALL, C3, '        vector = []\n        for metric in METRICS_ABBREVIATIONS:\n            if metric in self.original_metrics:\n                value = self.original_metrics[metric]\n                if value != "X":\n                    vector.append("{0}:{1}".format(metric, value))\n        if output_prefix:', '        vector = [\n            "{0}:{1}".format(metric, self.original_metrics[metric])\n            for metric in METRICS_ABBREVIATIONS\n            if metric in self.original_metrics and self.original_metrics[metric] != "X"\n        ]\n        if output_prefix:', "silent"),
+    V("n-v3-base-score-locals", ALL, C3, '        if self.isc <= D("0.0"):\n            self.base_score = D("0.0")\n        else:\n            assert self.scope in ("U", "C")\n            if self.scope == "U":\n                self.base_score = round_up(min((self.isc + self.esc), D("10")))\n            elif self.scope == "C":\n                self.base_score = round_up(min(D("1.08") * (self.isc + self.esc), D("10")))', '        impact, exploitability = self.isc, self.esc\n        if impact <= D("0.0"):\n            score = D("0.0")\n        elif self.scope == "U":\n            score = round_up(min(impact + exploitability, D("10")))\n        else:\n            score = round_up(min((impact + exploitability) * D("1.08"), D("10")))\n        self.base_score = score', "silent"),
+    V("n-v3-pr-table-constant", ALL, C3, '            result = {"X": None, "N": D("0.85"), "L": D("0.68"), "H": D("0.50")}[string_value]', '            changed_scope_pr = {"N": D("0.85"), "L": D("0.68"), "H": D("0.5")}\n            result = changed_scope_pr[string_value]', "silent"),
+    V("n-v2-scores-explicit", ALL, C2, "        scores = (self.base_score, self.temporal_score, self.environmental_score)\n        return tuple(float(a) if a is not None else None for a in scores)", "        result = []\n        for a in (self.base_score, self.temporal_score, self.environmental_score):\n            if a is None:\n                result.append(None)\n            else:\n                result.append(float(a))\n        return tuple(result)", "silent"),
+    V("n-v3-severities-helper", ALL, C3, '        severities = []\n        for score in (self.base_score, self.temporal_score, self.environmental_score):\n            if score == D("0.0"):\n                severities.append("None")\n            elif score <= D("3.9"):\n                severities.append("Low")\n            elif score <= D("6.9"):\n                severities.append("Medium")\n            elif score <= D("8.9"):\n                severities.append("High")\n            else:\n                severities.append("Critical")\n        return tuple(severities)', '        def rate(score):\n            if score == D("0.0"):\n                return "None"\n            if score <= D("3.9"):\n                return "Low"\n            if score <= D("6.9"):\n                return "Medium"\n            if score <= D("8.9"):\n                return "High"\n            return "Critical"\n\n        return (rate(self.base_score), rate(self.temporal_score), rate(self.environmental_score))', "silent"),
+    V("n-v4-m-restructured", ALL, C4, '        selected = self.metrics.get(metric)\n        if metric == "E" and selected == "X":\n            return "A"\n\n        if metric == "CR" and selected == "X":\n            return "H"\n\n        if metric == "IR" and selected == "X":\n            return "H"\n\n        if metric == "AR" and selected == "X":\n            return "H"\n', '        selected = self.metrics.get(metric)\n        if selected == "X":\n            if metric == "E":\n                return "A"\n            if metric in ("CR", "IR", "AR"):\n                return "H"\n', "silent"),
+    V("n-v4-eq2-simplified", ALL, C4, '        if self.m("AC") == "L" and self.m("AT") == "N":\n            eq2 = "0"\n        elif not (self.m("AC") == "L" and self.m("AT") == "N"):\n            eq2 = "1"', '        if self.m("AC") == "L" and self.m("AT") == "N":\n            eq2 = "0"\n        else:\n            eq2 = "1"', "silent"),
+    V("n-v4-tail-sum-loop", ALL, C4, "        mean_distance = (\n            0\n            if n_existing_lower == 0\n            else (\n                normalized_severity_eq1\n                + normalized_severity_eq2\n                + normalized_severity_eq3eq6\n                + normalized_severity_eq4\n                + normalized_severity_eq5\n            )\n            / n_existing_lower\n        )", "        total = 0\n        for part in (\n            normalized_severity_eq5,\n            normalized_severity_eq4,\n            normalized_severity_eq3eq6,\n            normalized_severity_eq2,\n            normalized_severity_eq1,\n        ):\n            total = total + part\n        if n_existing_lower == 0:\n            mean_distance = 0\n        else:\n            mean_distance = total / n_existing_lower", "silent"),
+    V("n-v3-as-json-update", ALL, C3, '        data["baseScore"] = float(self.base_score)\n        data["baseSeverity"] = us(base_severity)', '        data.update({"baseScore": float(self.base_score)})\n        data["baseSeverity"] = us(base_severity)', "silent"),
+    V("n-v3-rename-everything", ALL, C3, "    def compute_esc(self):\n        \"\"\"\n        8.22 x AttackVector x AttackComplexity x PrivilegeRequired x UserInteraction\n        \"\"\"\n        self.esc = (\n            D(\"8.22\")\n            * self.get_value(\"AV\")\n            * self.get_value(\"AC\")\n            * self.get_value(\"PR\")\n            * self.get_value(\"UI\")\n        )", "    def compute_esc(self):\n        \"\"\"\n        8.22 x AttackVector x AttackComplexity x PrivilegeRequired x UserInteraction\n        \"\"\"\n        product = D(\"8.22\")\n        for key in (\"UI\", \"PR\", \"AC\", \"AV\"):\n            product = product * self.get_value(key)\n        self.esc = product", "silent"),
+    V("n-v2-temporal-guard-rewrite", ALL, C2, 'if all(self.metrics.get(a, "ND") == "ND" for a in TEMPORAL_METRICS):\n            self.temporal_score = None\n        else:\n            self.temporal_score = max(D("0.0"), self.temporal_score_equation())', 'if any(self.metrics.get(a, "ND") != "ND" for a in TEMPORAL_METRICS):\n            self.temporal_score = max(D("0.0"), self.temporal_score_equation())\n        else:\n            self.temporal_score = None', "silent"),
+    V("n-parser-regex-flags-free", ALL, PAR, 'matches = re.compile(r"(?:CVSS:3\\.\\d/)?[A-Za-z:/]{26,}").findall(text)', 'matches = re.findall(r"(?:CVSS:3\\.\\d/)?[A-Za-z:/]{26,}", text)', "silent"),
 ]
